@@ -16,7 +16,7 @@ IsPrefixOf(a, b) == Len(a) <= Len(b) /\ SubSeq(b, 1, Len(a)) = a
 RECURSIVE Offsets(_, _, _)
 Offsets(ts, k, off) == IF k > Len(ts) THEN <<>> ELSE <<off>> \o Offsets(ts, k + 1, off + Len(ts[k].text))
 \* characters that can neither start nor continue a token outside text, byte lists and annotations
-BadCodes == {CodeOf("BS"), CodeOf("CTL"), CodeOf("EMOJI")}
+BadCodes == {CodeOf("BS"), CodeOf("CTL"), CodeOf("EMOJI"), CodeOf("NBSP")}
 Opaque == {"CharList", "ByteList", "LineAnnotation", "Annotation"}
 Blankish == {"Whitespace", "Subexpression"}
 TokAt(ts, offs, pos) == CHOOSE k \in DOMAIN ts : offs[k] < pos /\ pos <= offs[k] + Len(ts[k].text)     \* pos is 1-based
